@@ -754,6 +754,13 @@ pub fn run(tier: Tier) -> i32 {
         thread_crowd_leg(&mut acc, n);
     }
     rep.bound("thread_crowd_sizes", crowd);
+    // thousands of evaluations of the shared ruleset waiting inside a user function at once, part of
+    // them abandoned (the leg is C12's, see c12.rs; here it is the "many tasks" reading of sharing)
+    let gate_sizes: Vec<usize> = tier.pick(vec![1100, 2100], vec![1100, 2100, 4200, 16500, 66000]);
+    for &n in &gate_sizes {
+        super::c12::gate_crowd_leg(&mut acc, n, "C18");
+    }
+    rep.bound("gate_crowd_sizes", format!("{gate_sizes:?}"));
     for (h, d) in tier.pick(vec![(16usize, 100usize), (40, 40)], vec![(16, 100), (40, 40), (64, 200), (200, 20)]) {
         serialization_crowd_leg(&mut acc, h, d);
     }
@@ -814,9 +821,11 @@ pub fn replay(case: &serde_json::Value) -> i32 {
                 }
             }
         }
-        Some(k @ ("migration" | "thread-crowd" | "serialization-crowd")) => {
+        Some(k @ ("migration" | "thread-crowd" | "serialization-crowd" | "gate-crowd")) => {
             let mut acc = Acc::new();
-            if k == "migration" {
+            if k == "gate-crowd" {
+                super::c12::gate_crowd_leg(&mut acc, case.get("n").and_then(|n| n.as_u64()).unwrap_or(1100) as usize, "C18");
+            } else if k == "migration" {
                 migration_leg(&mut acc, 200);
             } else if k == "serialization-crowd" {
                 serialization_crowd_leg(&mut acc, case.get("holders").and_then(|n| n.as_u64()).unwrap_or(16) as usize, case.get("depth").and_then(|n| n.as_u64()).unwrap_or(100) as usize);
